@@ -20,7 +20,11 @@ semantics.  Names ending in `_partial` are restricted; what each one does NOT co
   checker model (`checkTiersN`) yield the same verdict `v`, for rules carrying protocol / not-protocol
   and IPv4 source / not-source / destination / not-destination CIDR lists (`RuleFullN U` ∧ `NetsL4`).
   `U` is the list of CIDRs the policy mentions; `EnvRelN N U` asks the kernel-side environment to
-  describe the same packet and, for the CIDRs of `U` only, the same containment.
+  describe the same packet and, for the CIDRs of `U` only, the same containment.  The iptables layout
+  (tiers → policy groups, inlined or with their own chain → policies, staged ones skipped) is tied to
+  the shared tiers by `hT`/`hP`: a10's `C09.policyTiers` (each tier's enforced policies in evaluation
+  order, ANY grouping) yields the outcome lists of the shared tiers' policies; `hn1`/`hn2` are the chain
+  name distinctness hypotheses of `C09.endpoint_chain_verdict_names`.
   NOT covered: IPv6 flows and IPv6 CIDRs in a rule (`RuleFullN.v4`; for mixed-family lists the
   statement is FALSE: `checker_ignores_ip_family`); explicit `ipVersion`; pass rules in profiles
   (FALSE: `profile_pass_disagree`); tiers without an enforced policy (`staged_only_tier_skipped`
@@ -66,7 +70,9 @@ semantics.  Names ending in `_partial` are restricted; what each one does NOT co
   CIDR list holds only other-family CIDRs (KNOWN-FINDING sig `checker-ip-family`).
 
 Every hypothesis bundle has a satisfiability example next to its theorem (`exL4a/b`, `exNets`, `exFull`,
-`exU`, `exNames`/`exEnv9`/`exPkt9`/`exP`, `exTiersN`, the `hT`/`hP` layout example), and the conclusion
+`exU`, `exNames`/`exEnv9`/`exPkt9`/`exP`, `exTiersN`), ALL ~30 hypotheses of the main theorem are
+instantiated TOGETHER on one policy / packet / environment / chain set / program (`joint_instance`,
+`joint_instance_verdict`, end of the file), and the conclusion
 of the unified reference is evaluated on `exTiersN` (ALLOW for 10.1.2.3 → 192.168.0.1, DENY into 10/8).
 -/
 namespace CalicoVerif.C12
@@ -389,7 +395,7 @@ theorem dataplanes_agree_partial
     -- iptables/nftables side (hypotheses of `C09.endpoint_chain_verdict_core`)
     (cfg : C08.Cfg) (mo : C08.MarksOK cfg) (vb : C09.VBits cfg) (vd : C09.VD cfg) (e : C09.EpCfg) (env9 : Netfilter.Env)
     (pkt9 : Netfilter.Packet) (chains : List Netfilter.Chain) (name : String) (tiers9 : List C09.Tier)
-    (profiles9 : List String) (polRules : String → List Policy.Rule) (out : String → C09.PolOutcome) (F : Nat)
+    (profiles9 : List String) (polRules : String → List Policy.Rule) (F : Nat)
     (m : Netfilter.Mark)
     (h1 : e.chainType = .normal) (h2 : e.adminUp = true) (h3 : e.failsafe = "")
     (h4 : pkt9.ctState ≠ "RELATED" ∧ pkt9.ctState ≠ "ESTABLISHED" ∧ pkt9.ctState ≠ "INVALID")
@@ -401,16 +407,17 @@ theorem dataplanes_agree_partial
     (h9 : ∀ t ∈ tiers9, ∀ g ∈ t.groups, ∀ p ∈ g.pols, p.staged = false →
       C09.PolicyChainOK cfg env9 pkt9 chains (polRules p.chain) p.chain)
     (h10 : ∀ p ∈ profiles9, C09.ProfileChainOK cfg env9 pkt9 chains (polRules p) p)
-    (o1 : ∀ t ∈ tiers9, ∀ g ∈ t.groups, g.inlined = true → ∀ p ∈ g.nonStaged,
-      out p.chain = C09.policyOutcome env9 pkt9.v6 pkt9 (polRules p.chain))
-    (o2 : ∀ t ∈ tiers9, ∀ g ∈ t.groups, g.inlined = false →
-      out g.chain = C09.firstDecision (g.nonStaged.map fun p => C09.policyOutcome env9 pkt9.v6 pkt9 (polRules p.chain)))
-    (o3 : ∀ p ∈ profiles9, out p = C09.policyOutcome env9 pkt9.v6 pkt9 (polRules p))
+    -- chain names: a group chain name identifies its group and is no inlined policy's / profile's chain name
+    (hn1 : ∀ t ∈ tiers9, ∀ g ∈ t.groups, g.inlined = false → ∀ t' ∈ tiers9, ∀ g' ∈ t'.groups, g'.inlined = false →
+      g'.chain = g.chain → g' = g)
+    (hn2 : ∀ t ∈ tiers9, ∀ g ∈ t.groups, g.inlined = false →
+      (∀ t' ∈ tiers9, ∀ g' ∈ t'.groups, g'.inlined = true → ∀ p ∈ g'.nonStaged, p.chain ≠ g.chain) ∧
+      (∀ p ∈ profiles9, p ≠ g.chain))
     -- the two sides talk about the same state and packet
     (he : EnvProto env9) (hv : pkt9.v6 = false) (hpr : pkt9.proto = (pktOfD st).proto.toNat)
-    (hT : tiers9.map (fun t => ((C09.tierTargets t).map (fun th => out th.1), t.defaultPass)) =
+    (hT : C09.policyTiers env9 pkt9 polRules tiers9 true =
       tiers.map (fun t => (outs9 env9 pkt9 t.policies, t.endAction == .pass)))
-    (hP : profiles9.map out = outs9 env9 pkt9 profiles) :
+    (hP : profiles9.map (fun p => C09.policyOutcome env9 pkt9.v6 pkt9 (polRules p)) = outs9 env9 pkt9 profiles) :
     ∃ v : Verdict,
       -- iptables/nftables: the rendered endpoint chain returns with the accept mark / drops
       C09.VShape cfg (toV9 v) (Netfilter.evalChain env9 chains pkt9 (F + 4) name m) ∧
@@ -419,8 +426,9 @@ theorem dataplanes_agree_partial
       -- app-policy: OK iff `v` is allow
       checkTiers ((pktOfD st).proto.toNat : Int) profiles tiers = some (v == .allow) := by
   refine ⟨bpfVerdict env (wlRules tiers profiles np) (pktOfD st), ?_, ?_, ?_⟩
-  · have h09 := C09.endpoint_chain_verdict_core cfg mo vb vd e env9 pkt9 chains name tiers9 profiles9 polRules out F m
-      h1 h2 h3 h4 h5 h6 h7 h8 h9 h10 o1 o2 o3
+  · have h09 := C09.endpoint_chain_verdict_names cfg mo vb vd e env9 pkt9 chains name tiers9 profiles9 polRules F m
+      h2 (fun hne => absurd h3 hne) h4 h5 h6 h7 h8 h9 h10 hn1 hn2
+    simp only [h1] at h09
     rw [hT, hP, endpointVerdict_bridge env9 he pkt9 env (pktOfD st) hv hpr profiles hcp tiers hct] at h09
     have heq : bpfVerdict env (wlRules tiers profiles np) (pktOfD st) =
         (match evalTiers env (pktOfD st) .dest tiers with
@@ -474,7 +482,7 @@ theorem ipt_bpf_agree_full_partial
     (hi : instructions env.c (wlRules tiers profiles np) = some (some [prog]))
     (cfg : C08.Cfg) (mo : C08.MarksOK cfg) (vb : C09.VBits cfg) (vd : C09.VD cfg) (e : C09.EpCfg) (env9 : Netfilter.Env)
     (pkt9 : Netfilter.Packet) (chains : List Netfilter.Chain) (name : String) (tiers9 : List C09.Tier)
-    (profiles9 : List String) (polRules : String → List Policy.Rule) (out : String → C09.PolOutcome) (F : Nat)
+    (profiles9 : List String) (polRules : String → List Policy.Rule) (F : Nat)
     (m : Netfilter.Mark)
     (h1 : e.chainType = .normal) (h2 : e.adminUp = true) (h3 : e.failsafe = "")
     (h4 : pkt9.ctState ≠ "RELATED" ∧ pkt9.ctState ≠ "ESTABLISHED" ∧ pkt9.ctState ≠ "INVALID")
@@ -486,21 +494,24 @@ theorem ipt_bpf_agree_full_partial
     (h9 : ∀ t ∈ tiers9, ∀ g ∈ t.groups, ∀ p ∈ g.pols, p.staged = false →
       C09.PolicyChainOK cfg env9 pkt9 chains (polRules p.chain) p.chain)
     (h10 : ∀ p ∈ profiles9, C09.ProfileChainOK cfg env9 pkt9 chains (polRules p) p)
-    (o1 : ∀ t ∈ tiers9, ∀ g ∈ t.groups, g.inlined = true → ∀ p ∈ g.nonStaged,
-      out p.chain = C09.policyOutcome env9 pkt9.v6 pkt9 (polRules p.chain))
-    (o2 : ∀ t ∈ tiers9, ∀ g ∈ t.groups, g.inlined = false →
-      out g.chain = C09.firstDecision (g.nonStaged.map fun p => C09.policyOutcome env9 pkt9.v6 pkt9 (polRules p.chain)))
-    (o3 : ∀ p ∈ profiles9, out p = C09.policyOutcome env9 pkt9.v6 pkt9 (polRules p))
+    -- chain names: a group chain name identifies its group and is no inlined policy's / profile's chain name
+    (hn1 : ∀ t ∈ tiers9, ∀ g ∈ t.groups, g.inlined = false → ∀ t' ∈ tiers9, ∀ g' ∈ t'.groups, g'.inlined = false →
+      g'.chain = g.chain → g' = g)
+    (hn2 : ∀ t ∈ tiers9, ∀ g ∈ t.groups, g.inlined = false →
+      (∀ t' ∈ tiers9, ∀ g' ∈ t'.groups, g'.inlined = true → ∀ p ∈ g'.nonStaged, p.chain ≠ g.chain) ∧
+      (∀ p ∈ profiles9, p ≠ g.chain))
     (he : EnvRelN N U env9 pkt9 env (pktOfD st))
-    (hT : tiers9.map (fun t => ((C09.tierTargets t).map (fun th => out th.1), t.defaultPass)) =
+    (hT : C09.policyTiers env9 pkt9 polRules tiers9 true =
       tiers.map (fun t => (outsG env9 pkt9 (trRuleFN N) t.policies, t.endAction == .pass)))
-    (hP : profiles9.map out = outsG env9 pkt9 (trRuleFN N) profiles) :
+    (hP : profiles9.map (fun p => C09.policyOutcome env9 pkt9.v6 pkt9 (polRules p)) =
+      outsG env9 pkt9 (trRuleFN N) profiles) :
     ∃ v : Verdict,
       C09.VShape cfg (toV9 v) (Netfilter.evalChain env9 chains pkt9 (F + 4) name m) ∧
       (∃ o, (execL env prog (Mach.init st)).obs = some o ∧ (expectedObs env false v).agrees o = true) := by
   refine ⟨bpfVerdict env (wlRules tiers profiles np) (pktOfD st), ?_, ?_⟩
-  · have h09 := C09.endpoint_chain_verdict_core cfg mo vb vd e env9 pkt9 chains name tiers9 profiles9 polRules out F m
-      h1 h2 h3 h4 h5 h6 h7 h8 h9 h10 o1 o2 o3
+  · have h09 := C09.endpoint_chain_verdict_names cfg mo vb vd e env9 pkt9 chains name tiers9 profiles9 polRules F m
+      h2 (fun hne => absurd h3 hne) h4 h5 h6 h7 h8 h9 h10 hn1 hn2
+    simp only [h1] at h09
     rw [hT, hP, references_agree_full_partial he tiers profiles hct hcp] at h09
     have heq : bpfVerdict env (wlRules tiers profiles np) (pktOfD st) =
         (match evalTiers env (pktOfD st) .dest tiers with
@@ -536,7 +547,7 @@ theorem dataplanes_agree_nets_partial
     (hi : instructions env.c (wlRules tiers profiles np) = some (some [prog]))
     (cfg : C08.Cfg) (mo : C08.MarksOK cfg) (vb : C09.VBits cfg) (vd : C09.VD cfg) (e : C09.EpCfg) (env9 : Netfilter.Env)
     (pkt9 : Netfilter.Packet) (chains : List Netfilter.Chain) (name : String) (tiers9 : List C09.Tier)
-    (profiles9 : List String) (polRules : String → List Policy.Rule) (out : String → C09.PolOutcome) (F : Nat)
+    (profiles9 : List String) (polRules : String → List Policy.Rule) (F : Nat)
     (m : Netfilter.Mark)
     (h1 : e.chainType = .normal) (h2 : e.adminUp = true) (h3 : e.failsafe = "")
     (h4 : pkt9.ctState ≠ "RELATED" ∧ pkt9.ctState ≠ "ESTABLISHED" ∧ pkt9.ctState ≠ "INVALID")
@@ -548,22 +559,25 @@ theorem dataplanes_agree_nets_partial
     (h9 : ∀ t ∈ tiers9, ∀ g ∈ t.groups, ∀ p ∈ g.pols, p.staged = false →
       C09.PolicyChainOK cfg env9 pkt9 chains (polRules p.chain) p.chain)
     (h10 : ∀ p ∈ profiles9, C09.ProfileChainOK cfg env9 pkt9 chains (polRules p) p)
-    (o1 : ∀ t ∈ tiers9, ∀ g ∈ t.groups, g.inlined = true → ∀ p ∈ g.nonStaged,
-      out p.chain = C09.policyOutcome env9 pkt9.v6 pkt9 (polRules p.chain))
-    (o2 : ∀ t ∈ tiers9, ∀ g ∈ t.groups, g.inlined = false →
-      out g.chain = C09.firstDecision (g.nonStaged.map fun p => C09.policyOutcome env9 pkt9.v6 pkt9 (polRules p.chain)))
-    (o3 : ∀ p ∈ profiles9, out p = C09.policyOutcome env9 pkt9.v6 pkt9 (polRules p))
+    -- chain names: a group chain name identifies its group and is no inlined policy's / profile's chain name
+    (hn1 : ∀ t ∈ tiers9, ∀ g ∈ t.groups, g.inlined = false → ∀ t' ∈ tiers9, ∀ g' ∈ t'.groups, g'.inlined = false →
+      g'.chain = g.chain → g' = g)
+    (hn2 : ∀ t ∈ tiers9, ∀ g ∈ t.groups, g.inlined = false →
+      (∀ t' ∈ tiers9, ∀ g' ∈ t'.groups, g'.inlined = true → ∀ p ∈ g'.nonStaged, p.chain ≠ g.chain) ∧
+      (∀ p ∈ profiles9, p ≠ g.chain))
     (he : EnvRelN N U env9 pkt9 env (pktOfD st))
-    (hT : tiers9.map (fun t => ((C09.tierTargets t).map (fun th => out th.1), t.defaultPass)) =
+    (hT : C09.policyTiers env9 pkt9 polRules tiers9 true =
       tiers.map (fun t => (outsG env9 pkt9 (trRuleFN N) t.policies, t.endAction == .pass)))
-    (hP : profiles9.map out = outsG env9 pkt9 (trRuleFN N) profiles) :
+    (hP : profiles9.map (fun p => C09.policyOutcome env9 pkt9.v6 pkt9 (polRules p)) =
+      outsG env9 pkt9 (trRuleFN N) profiles) :
     ∃ v : Verdict,
       C09.VShape cfg (toV9 v) (Netfilter.evalChain env9 chains pkt9 (F + 4) name m) ∧
       (∃ o, (execL env prog (Mach.init st)).obs = some o ∧ (expectedObs env false v).agrees o = true) ∧
       checkTiersN ((pktOfD st).proto.toNat : Int) src dst profiles tiers = some (v == .allow) := by
   refine ⟨bpfVerdict env (wlRules tiers profiles np) (pktOfD st), ?_, ?_, ?_⟩
-  · have h09 := C09.endpoint_chain_verdict_core cfg mo vb vd e env9 pkt9 chains name tiers9 profiles9 polRules out F m
-      h1 h2 h3 h4 h5 h6 h7 h8 h9 h10 o1 o2 o3
+  · have h09 := C09.endpoint_chain_verdict_names cfg mo vb vd e env9 pkt9 chains name tiers9 profiles9 polRules F m
+      h2 (fun hne => absurd h3 hne) h4 h5 h6 h7 h8 h9 h10 hn1 hn2
+    simp only [h1] at h09
     rw [hT, hP, references_agree_full_partial he tiers profiles hct hcp] at h09
     have heq : bpfVerdict env (wlRules tiers profiles np) (pktOfD st) =
         (match evalTiers env (pktOfD st) .dest tiers with
@@ -640,23 +654,6 @@ example :
   rw [references_agree_full_partial exEnvRel exTiersN [] exTiersN_ok.1 ⟨(by intro _ h; cases h), (by intro _ h; cases h)⟩]
   decide
 
--- non-vacuity of the layout hypotheses `hT` / `hP`: one tier holding one single-policy group, one profile
-example (env9 : Netfilter.Env) (pkt9 : Netfilter.Packet) (rs ps : List Rule) :
-    let out : String → C09.PolOutcome := fun c =>
-      if c = "pol" then C09.policyOutcome env9 false pkt9 (rs.map trRule)
-      else C09.policyOutcome env9 false pkt9 (ps.map trRule)
-    let tiers9 : List C09.Tier := [{ name := "t", defaultPass := false,
-                                     groups := [{ chain := "g", pols := [{ chain := "pol", staged := false }] }] }]
-    let tiers : List Tier := [{ endAction := EndAction.deny, endRuleID := 0, policies := [{ rules := rs }] }]
-    tiers9.map (fun t => ((C09.tierTargets t).map (fun th => out th.1), t.defaultPass)) =
-        tiers.map (fun t => (outs9 env9 pkt9 t.policies, t.endAction == .pass)) ∧
-      ["prof"].map out = outs9 env9 pkt9 [{ rules := ps }] := by
-  intro out tiers9 tiers
-  constructor
-  · simp [tiers9, tiers, out, C09.tierTargets, C09.Group.jumpTargets, C09.Group.inlined, C09.Group.nonStaged,
-      C09.Group.hasNonStaged, outs9]
-  · simp [out, outs9]
-
 -- non-vacuity of the common fragment
 example : TiersCommon [{ endAction := EndAction.deny, endRuleID := 0, policies := [{ rules := [exL4a, exL4b] }] }] := by
   intro t ht
@@ -676,5 +673,210 @@ example : ProfilesCommon [{ rules := [exL4a, exL4b] }] ∧ EnvProto exEnv9 := by
   · rcases hr with rfl | rfl <;> decide
 -- (the BPF-side hypotheses `ProgOK` / `instructions … = some (some [prog])` are satisfiable: `C11.exRules_progOK`
 -- and the examples after it in Props/C11.lean; the C09-side hypotheses are those of a10's theorem, see Props/C09.lean)
+
+/-! ### Joint non-vacuity: ALL hypotheses of `dataplanes_agree_nets_partial` on one instance
+
+One workload endpoint: a tier (end action deny) whose policy group `g` holds the enforced policies
+`polA` = [allow tcp from 10.1.0.0/16 to !10.0.0.0/8] (`exNets`), `polB` = [deny tcp] and a staged policy
+(so the group has its own chain: NOT inlined), and the profile `prof` = [allow tcp]; the flow
+10.1.2.3:1234 → 192.168.0.1:80 tcp as 512 state bytes `jSt` (BPF side), as `exPkt9` (netfilter side)
+and as addresses (checker side); the kernel environment `jEnv9` knows the two CIDRs of the policy and the
+catch-all CIDRs; the chain set `jChains` holds the rendered endpoint, group, policy and profile chains;
+the BPF program is the one `Instructions` builds (`jProg_built`).  `joint_instance` feeds all of it to
+the theorem; `joint_instance_verdict` evaluates the three sides independently: all ALLOW. -/
+
+def jSt : List Byte :=
+  List.replicate 8 0 ++ [10, 1, 2, 3] ++ List.replicate 28 0 ++ [192, 168, 0, 1] ++ List.replicate 12 0 ++
+    [192, 168, 0, 1] ++ List.replicate 36 0 ++ [0xD2, 0x04, 0, 0, 80, 0, 80, 0, 6] ++ List.replicate 407 0
+theorem jSt_len : jSt.length = 512 := by decide +kernel
+theorem jSt_pkt : pktOfD jSt = exP := by
+  unfold pktOfD exP
+  congr 1
+
+def jEnv9 : Netfilter.Env :=
+  { netContains := fun c a => if c = "0.0.0.0/0" ∨ c = "::/0" then true else exEnv9.netContains c a,
+    protoNum := fun s => protoNumberRef (.name s) }
+theorem jEnv9_catchAll : C08.EnvCatchAll jEnv9 := fun _ => ⟨rfl, rfl⟩
+theorem jEnvRel : EnvRelN exNames exU jEnv9 exPkt9 { c := exCfg } (pktOfD jSt) := by
+  rw [jSt_pkt]
+  refine ⟨⟨rfl, rfl, fun s => rfl, rfl, rfl, rfl, rfl, rfl, fun _ => rfl, fun _ => rfl, fun _ => rfl, fun _ => rfl⟩, ?_, ?_⟩
+  · intro n hn _; simp [exU] at hn; rcases hn with rfl | rfl <;> decide
+  · intro n hn _; simp [exU] at hn; rcases hn with rfl | rfl <;> decide
+
+def jDeny : Rule := { action := "deny", protocol := some (Proto.name "tcp") }
+def jTiers : List Tier :=
+  [{ endAction := EndAction.deny, endRuleID := 1, policies := [{ rules := [exNets] }, { rules := [jDeny] }] }]
+def jProfs : List Policy := [{ rules := [exL4a] }]
+
+def jPolRules (c : String) : List Policy.Rule :=
+  if c == "polA" then [trRuleFN exNames exNets] else if c == "polB" then [trRuleFN exNames jDeny]
+  else if c == "prof" then [trRuleFN exNames exL4a] else []
+def jG : C09.Group := { chain := "g", pols := [{ chain := "polA", staged := false }, { chain := "polS", staged := true }, { chain := "polB", staged := false }] }
+def jTiers9 : List C09.Tier := [{ name := "t", defaultPass := false, groups := [jG] }]
+def jChains : List Netfilter.Chain :=
+  [ { name := "ep", rules := (C09.endpointChain {} {} "ep" jTiers9 ["prof"]).rules },
+    C09.policyGroupChain {} jG,
+    { name := "polA", rules := (C09.protoRulesToRules {} {} false (jPolRules "polA") "c").getD [] },
+    { name := "polB", rules := (C09.protoRulesToRules {} {} false (jPolRules "polB") "c").getD [] },
+    { name := "prof", rules := (C09.protoRulesToRules {} { owner := 'R' } false (jPolRules "prof") "c").getD [] } ]
+
+
+def jRules : Rules := wlRules jTiers jProfs 0
+def jProg : List Insn := match instructions exCfg jRules with | some (some [p]) => p | _ => []
+theorem jProg_built : instructions exCfg jRules = some (some [jProg]) := by decide +kernel
+
+theorem hpos_of (v6 : Bool) (r : Policy.Rule)
+    (h : (match C08.filterRuleToIPVersion v6 r with | some rc => decide (C08.numPositive rc ≤ 2) | none => true) = true) :
+    ∀ rc, C08.filterRuleToIPVersion v6 r = some rc → C08.numPositive rc ≤ 2 := by
+  intro rc hrc; rw [hrc] at h; simpa using h
+
+theorem jExact (r : Policy.Rule)
+    (h : (match C08.filterRuleToIPVersion false r with | some rc => decide (C08.numPositive rc ≤ 2) | none => true) = true) :
+    C09.RuleExact {} jEnv9 exPkt9 r :=
+  C09.ruleExact_of_le2 {} jEnv9 exPkt9 r (by constructor <;> decide) jEnv9_catchAll (Or.inl rfl) (hpos_of false r h)
+
+theorem jExactA : C09.RuleExact {} jEnv9 exPkt9 (trRuleFN exNames exNets) := jExact _ (by decide +kernel)
+
+theorem jDeny_full : RuleFullN exU jDeny ∧ NetsL4 jDeny := by
+  refine ⟨⟨⟨Or.inr (Or.inl rfl), trivial, trivial, ⟨rfl, rfl, rfl, rfl, rfl⟩, ?_, ?_, ?_, ⟨trivial, trivial⟩, by decide⟩, ?_, ?_⟩, ⟨rfl, ?_⟩⟩
+  · intro pr h; simp [jDeny, clearNets] at h
+  · intro h; exact absurd rfl h
+  · intro h; rcases h with h | h <;> exact absurd rfl h
+  · intro n hn; simp [jDeny] at hn
+  · intro n hn; simp [jDeny] at hn
+  · intro n hn; simp [jDeny] at hn
+theorem exL4a_full : RuleFullN exU exL4a ∧ NetsL4 exL4a := by
+  refine ⟨⟨⟨Or.inl rfl, trivial, trivial, ⟨rfl, rfl, rfl, rfl, rfl⟩, ?_, ?_, ?_, ⟨trivial, trivial⟩, by decide⟩, ?_, ?_⟩, ⟨rfl, ?_⟩⟩
+  · intro pr h; simp [exL4a, clearNets] at h
+  · intro h; exact absurd rfl h
+  · intro h; rcases h with h | h <;> exact absurd rfl h
+  · intro n hn; simp [exL4a] at hn
+  · intro n hn; simp [exL4a] at hn
+  · intro n hn; simp [exL4a] at hn
+theorem exNets_netsL4 : NetsL4 exNets := ⟨rfl, by intro n hn; simp [exNets] at hn; rcases hn with rfl | rfl <;> rfl⟩
+
+theorem exNets_ok : RuleOK exNets := by
+  refine ⟨?_, ?_, ?_, ?_⟩
+  · intro pr h; simp [exNets] at h; subst h; exact ⟨6, by decide, by decide, by decide⟩
+  · intro pr h; simp [exNets] at h
+  · intro id h; simp [Rule.ipSetIDs, exNets] at h
+  · intro pr h; simp [exNets] at h
+theorem jDeny_ok : RuleOK jDeny := by
+  refine ⟨?_, ?_, ?_, ?_⟩
+  · intro pr h; simp [jDeny] at h; subst h; exact ⟨6, by decide, by decide, by decide⟩
+  · intro pr h; simp [jDeny] at h
+  · intro id h; simp [Rule.ipSetIDs, jDeny] at h
+  · intro pr h; simp [jDeny] at h
+theorem exL4a_ok : RuleOK exL4a := by
+  refine ⟨?_, ?_, ?_, ?_⟩
+  · intro pr h; simp [exL4a] at h; subst h; exact ⟨6, by decide, by decide, by decide⟩
+  · intro pr h; simp [exL4a] at h
+  · intro id h; simp [Rule.ipSetIDs, exL4a] at h
+  · intro pr h; simp [exL4a] at h
+
+theorem joint_instance :
+    ∃ v : Verdict,
+      C09.VShape {} (toV9 v) (Netfilter.evalChain jEnv9 jChains exPkt9 4 "ep" 0) ∧
+      (∃ o, (execL { c := exCfg } jProg (Mach.init jSt)).obs = some o ∧ (expectedObs { c := exCfg } false v).agrees o = true) ∧
+      checkTiersN ((pktOfD jSt).proto.toNat : Int) 0x0a010203 0xc0a80001 jProfs jTiers = some (v == .allow) := by
+  have hct : TiersOkG (RuleFullN exU) jTiers := by
+    intro t ht; simp only [jTiers, List.mem_singleton] at ht; subst ht
+    refine ⟨by simp, ?_⟩
+    intro pol hp r hr
+    simp only [List.mem_cons, List.not_mem_nil, or_false] at hp
+    rcases hp with rfl | rfl <;> simp only [List.mem_singleton] at hr <;> subst hr
+    · exact exNets_full
+    · exact jDeny_full.1
+  have hcp : ProfilesOkG (RuleFullN exU) jProfs := by
+    refine ⟨?_, ?_⟩ <;> intro pol hp r hr <;> simp only [jProfs, List.mem_singleton] at hp <;> subst hp <;>
+      simp only [List.mem_singleton] at hr <;> subst hr
+    · exact exL4a_full.1
+    · decide
+  have hctN : TiersNetsL4 jTiers := by
+    intro t ht; simp only [jTiers, List.mem_singleton] at ht; subst ht
+    refine ⟨by simp, ?_⟩
+    intro pol hp r hr
+    simp only [List.mem_cons, List.not_mem_nil, or_false] at hp
+    rcases hp with rfl | rfl <;> simp only [List.mem_singleton] at hr <;> subst hr
+    · exact ⟨exNets_netsL4, by decide⟩
+    · exact ⟨jDeny_full.2, by decide⟩
+  have hcpN : PoliciesNetsL4 jProfs := by
+    intro pol hp r hr; simp only [jProfs, List.mem_singleton] at hp; subst hp
+    simp only [List.mem_singleton] at hr; subst hr
+    exact ⟨exL4a_full.2, by decide⟩
+  have hn : 1 ≤ (pktOfD jSt).proto.toNat := by rw [jSt_pkt]; decide
+  have hf : FlowAddrs (pktOfD jSt) 0x0a010203 0xc0a80001 := by rw [jSt_pkt]; exact ⟨rfl, rfl⟩
+  have hok : ProgOK { c := exCfg } jSt (wlRules jTiers jProfs 0) := by
+    refine ⟨⟨jSt_len, by decide⟩, ?_, ?_, ?_, ?_, ?_, ?_⟩
+    · intro t ht pol hp rule hr
+      simp only [wlRules, jTiers, List.mem_singleton] at ht; subst ht
+      simp only [List.mem_cons, List.not_mem_nil, or_false] at hp
+      rcases hp with rfl | rfl <;> simp only [List.mem_singleton] at hr <;> subst hr
+      · exact ⟨by decide, exNets_ok⟩
+      · exact ⟨by decide, jDeny_ok⟩
+    · intro t ht; simp [wlRules] at ht
+    · intro t ht; simp [wlRules] at ht
+    · intro t ht; simp [wlRules] at ht
+    · intro pol hp rule hr
+      simp only [wlRules, jProfs, List.mem_singleton] at hp; subst hp
+      simp only [List.mem_singleton] at hr; subst hr
+      exact ⟨by decide, exL4a_ok⟩
+    · intro pol hp; simp [wlRules] at hp
+  have hshort : (flat (compile exCfg (wlRules jTiers jProfs 0))).length < exCfg.trampolineStride := by decide +kernel
+  refine dataplanes_agree_nets_partial exNames exU jTiers jProfs 0 { c := exCfg } jSt 0x0a010203 0xc0a80001
+    hct hcp hctN hcpN hn hf hok rfl (Or.inl rfl) hshort jProg jProg_built
+    {} (by constructor <;> decide) (by constructor <;> decide) (by constructor <;> decide) {} jEnv9 exPkt9 jChains "ep" jTiers9 ["prof"] jPolRules 0 0
+    rfl rfl rfl (by decide) (by decide) (by decide) (by decide +kernel) ?h8 ?h9 ?h10 ?hn1 ?hn2 jEnvRel ?hT ?hP
+  case h8 =>
+    intro t ht g hg _
+    simp only [jTiers9, List.mem_singleton] at ht; subst ht
+    simp only [List.mem_singleton] at hg; subst hg
+    decide +kernel
+  case h9 =>
+    intro t ht g hg p hp hs
+    simp only [jTiers9, List.mem_singleton] at ht; subst ht
+    simp only [List.mem_singleton] at hg; subst hg
+    simp only [jG, List.mem_cons, List.not_mem_nil, or_false] at hp
+    rcases hp with rfl | rfl | rfl
+    · refine ⟨{}, "c", (C09.protoRulesToRules {} {} false (jPolRules "polA") "c").getD [], by decide +kernel, by decide +kernel, ?_, ?_⟩ <;>
+        (intro r hr; have : r = trRuleFN exNames exNets := by simpa [jPolRules] using hr
+         subst this)
+      · exact jExact _ (by decide +kernel)
+      · decide +kernel
+    · exact absurd hs (by decide)
+    · refine ⟨{}, "c", (C09.protoRulesToRules {} {} false (jPolRules "polB") "c").getD [], by decide +kernel, by decide +kernel, ?_, ?_⟩ <;>
+        (intro r hr; have : r = trRuleFN exNames jDeny := by simpa [jPolRules] using hr
+         subst this)
+      · exact jExact _ (by decide +kernel)
+      · decide +kernel
+  case h10 =>
+    intro p hp
+    simp only [List.mem_singleton] at hp; subst hp
+    refine ⟨{ owner := 'R' }, "c", (C09.protoRulesToRules {} { owner := 'R' } false (jPolRules "prof") "c").getD [], by decide +kernel, by decide +kernel, ?_, ?_⟩ <;>
+      (intro r hr; have : r = trRuleFN exNames exL4a := by simpa [jPolRules] using hr
+       subst this)
+    · exact jExact _ (by decide +kernel)
+    · exact ⟨.allow, by decide +kernel, by decide⟩
+  case hn1 =>
+    intro t ht g hg _ t' ht' g' hg' _ _
+    simp only [jTiers9, List.mem_singleton] at ht ht'; subst ht; subst ht'
+    simp only [List.mem_singleton] at hg hg'; subst hg; subst hg'; rfl
+  case hn2 =>
+    intro t ht g hg _
+    simp only [jTiers9, List.mem_singleton] at ht; subst ht
+    simp only [List.mem_singleton] at hg; subst hg
+    constructor
+    · intro t' ht' g' hg' hi'
+      simp only [jTiers9, List.mem_singleton] at ht'; subst ht'
+      simp only [List.mem_singleton] at hg'; subst hg'
+      exact absurd hi' (by decide)
+    · intro p hp; simp only [List.mem_singleton] at hp; subst hp; decide
+  case hT => rfl
+  case hP => rfl
+theorem joint_instance_verdict :
+    bpfVerdict { c := exCfg } (wlRules jTiers jProfs 0) (pktOfD jSt) = .allow ∧
+    Netfilter.evalChain jEnv9 jChains exPkt9 4 "ep" 0 = .returned 0x80#32 ∧
+    checkTiersN 6 0x0a010203 0xc0a80001 jProfs jTiers = some true := by
+  refine ⟨by rw [jSt_pkt]; decide, by decide +kernel, by decide⟩
 
 end CalicoVerif.C12
